@@ -86,6 +86,15 @@ def run(rep, ctx, prop, extra_progs=None, rule_extra=''):
     P = PROPS[prop]
     n_random = 300 if ctx.tier == 'quick' else 3000
     progs = common.standard_programs(ctx, n_random, n_per_carrier=2 if ctx.tier == 'quick' else 10)
+    # the line sets are part of what is compared: the hand-written shapes and the repo's own test contracts also with
+    # CRLF line ends, with leading blank lines and without a final line end (same tokens, other line structure)
+    variants = []
+    for p in progs:
+        if p['gen'].startswith(('special:', 'corpus:')) and len(p['src']) < 6000 and '\r' not in p['src']:
+            variants.append({'gen': 'crlf:' + p['gen'], 'src': p['src'].replace('\n', '\r\n')})
+            if p['gen'].startswith('special:'):
+                variants.append({'gen': 'lead:' + p['gen'], 'src': '\n\n  \n' + p['src'].rstrip('\n')})
+    progs = progs + variants
     ps, res = eval_prop(ctx, prop, progs, 'std-%s-%d' % (ctx.tier, ctx.seed))
     if extra_progs:
         ps2, res2 = eval_prop(ctx, prop, extra_progs, '%s-%s-%d' % (prop.lower(), ctx.tier, ctx.seed))
